@@ -156,7 +156,7 @@ pub struct Cluster {
     /// "lag" runs, half of them (decided by the seed): the interval tasks run as on a real server,
     /// i.e. after every clock advance of at least ten minutes each running node performs two
     /// purge cycles (purge_recycled, purge_tombstones; each its own write transaction).
-    periodic_purge: bool,
+    periodic_purge: Vec<bool>,
     pub out: Outcome,
     step: usize,
     kinds: Vec<u64>,
@@ -220,9 +220,15 @@ fn sset(v: &[&str]) -> BTreeSet<String> {
 }
 
 pub fn dyn_filter_json(pat: &str) -> String {
-    // members: persons whose name starts with `pat` (Stw is not in ProtoFilter; use Sub)
+    // members: persons whose name contains `pat`; "g:<pat>" selects groups instead (a dynamic
+    // group over groups, whose nested members inherit it; the patterns used never match a
+    // dynamic group's own name)
+    let (class, pat) = match pat.strip_prefix("g:") {
+        Some(p) => ("group", p),
+        None => ("person", pat),
+    };
     serde_json::to_string(&ProtoFilter::And(vec![
-        ProtoFilter::Eq("class".into(), "person".into()),
+        ProtoFilter::Eq("class".into(), class.into()),
         ProtoFilter::Cnt("name".into(), pat.into()),
     ]))
     .expect("json")
@@ -254,7 +260,12 @@ impl Cluster {
             recycled_ever: BTreeSet::new(),
             revived_ever: BTreeSet::new(),
             baseline_system: BTreeSet::new(),
-            periodic_purge: cfg.focus == "lag" && Rng::stream(seed, "periodic-purge").chance(1, 2),
+            periodic_purge: {
+                // per node: a server whose interval tasks run, next to one whose tasks do not
+                // (stopped, or simply not due) is the asymmetric case a lagging replica meets
+                let mut p = Rng::stream(seed, "periodic-purge");
+                (0..cfg.nodes).map(|_| cfg.focus == "lag" && p.chance(1, 2)).collect()
+            },
             out: Outcome::default(),
             step: 0,
             kinds: vec![],
@@ -694,10 +705,10 @@ impl Cluster {
             Op::Advance { secs } => {
                 self.t += secs;
                 self.out.sim_secs += secs as f64;
-                if self.periodic_purge && secs >= 600 {
+                if secs >= 600 && self.periodic_purge.iter().any(|p| *p) {
                     self.after = "purge";
                     for n in 0..nn {
-                        if !self.up(n) {
+                        if !self.up(n) || !self.periodic_purge.get(n).copied().unwrap_or(false) {
                             continue;
                         }
                         for _cycle in 0..2 {
@@ -1159,6 +1170,10 @@ pub fn generate(property: &str, seed: u64, cfg: &Cfg, w: &Weights, n_events: usi
         }
     };
     let mut part_state = 0u8;
+    // reference-heavy runs (C16): (holder, target) pairs as generated, used to aim deletes and
+    // revives at entries on either end of a reference
+    let ref_bias = w.extra >= 30;
+    let mut refs: Vec<(Uuid, Uuid)> = vec![];
     while evs.len() < n_events {
         if let Some((x, from, to)) = partition {
             if (part_state == 0 && evs.len() >= from) || (part_state == 1 && evs.len() >= to) {
@@ -1196,7 +1211,7 @@ pub fn generate(property: &str, seed: u64, cfg: &Cfg, w: &Weights, n_events: usi
                     let u = if cfg.focus == "lag" { uuid_for(3, 100 + fresh) } else { *g.pick(&dyns) };
                     created.push(u);
                     created_groups.push(u);
-                    Op::CreateDyn { n, u, name: format!("dyn{}", g.below(2)), pat: g.pick(&["n", "na", "nb", "nc", "x"]).to_string() }
+                    Op::CreateDyn { n, u, name: format!("dyn{}", g.below(2)), pat: if cfg.focus == "graph" { g.pick(&["n", "na", "nb", "g:nal", "g:nbo", "g:ncy", "g:ndi"]).to_string() } else { g.pick(&["n", "na", "nb", "nc", "x"]).to_string() } }
                 }
             }
             1 => Op::Rename { n, u: anyof(&mut g, &created, &all), name: g.pick(&names).clone() },
@@ -1219,11 +1234,28 @@ pub fn generate(property: &str, seed: u64, cfg: &Cfg, w: &Weights, n_events: usi
                 }
             }
             4 => {
-                let u = anyof(&mut g, &created, &all);
+                let mut u = anyof(&mut g, &created, &all);
+                if ref_bias && g.chance(1, 2) {
+                    // delete something an already deleted entry refers to (holder first, target later)
+                    let c: Vec<Uuid> = refs.iter().filter(|(h, t)| deleted.contains(h) && !deleted.contains(t)).map(|(_, t)| *t).collect();
+                    if !c.is_empty() {
+                        u = *g.pick(&c);
+                    }
+                }
                 deleted.push(u);
                 Op::Delete { n, u }
             }
-            5 => Op::Revive { n, u: anyof(&mut g, &deleted, &all) },
+            5 => {
+                let mut u = anyof(&mut g, &deleted, &all);
+                if ref_bias && g.chance(1, 2) {
+                    // revive an entry whose reference target (or holder) was deleted after it
+                    let c: Vec<Uuid> = refs.iter().filter(|(h, t)| deleted.contains(h) && deleted.contains(t)).flat_map(|(h, t)| [*h, *t]).collect();
+                    if !c.is_empty() {
+                        u = *g.pick(&c);
+                    }
+                }
+                Op::Revive { n, u }
+            }
             6 => {
                 if g.chance(1, 2) {
                     Op::PurgeRecycled { n }
@@ -1277,7 +1309,7 @@ pub fn generate(property: &str, seed: u64, cfg: &Cfg, w: &Weights, n_events: usi
                     Op::BadModify { n, kind: g.below(4) as u8, u: anyof(&mut g, &created, &all) }
                 }
             }
-            13 => Op::SetDynFilter { n, u: *g.pick(&dyns), pat: g.pick(&["n", "na", "nb", "nc", "x"]).to_string() },
+            13 => Op::SetDynFilter { n, u: *g.pick(&dyns), pat: if cfg.focus == "graph" { g.pick(&["n", "na", "nb", "g:nal", "g:nbo", "g:ncy", "g:ndi"]).to_string() } else { g.pick(&["n", "na", "nb", "nc", "x"]).to_string() } },
             14 => Op::Reindex { n },
             15 => Op::SetManager { n, u: anyof(&mut g, &created_groups, &groups), mgr: anyof(&mut g, &created, &all) },
             16 => Op::Abandon { n, u: *g.pick(&persons), name: g.pick(&names).clone() },
@@ -1318,6 +1350,13 @@ pub fn generate(property: &str, seed: u64, cfg: &Cfg, w: &Weights, n_events: usi
                 }
             },
         };
+        match &op {
+            Op::CreateGroup { u, members, .. } => refs.extend(members.iter().map(|m| (*u, *m))),
+            Op::AddMember { g: gr, m, .. } => refs.push((*gr, *m)),
+            Op::SetManager { u, mgr, .. } => refs.push((*u, *mgr)),
+            Op::ScopeMap { rs, g: gr, del: false, .. } | Op::ClaimMap { rs, g: gr, del: false, .. } => refs.push((*rs, *gr)),
+            _ => {}
+        }
         id += 1;
         let mut v = serde_json::to_value(&op).expect("json");
         v["id"] = json!(id);
@@ -1477,6 +1516,7 @@ pub fn scenarios() -> Vec<Box<dyn Scenario>> {
         if k.chance(2, 3) {
             w.extra = 30;
             w.delete = 10;
+            w.revive = 8;
             w.manager = 5;
         }
         (cfg, w, n, big)
@@ -1567,7 +1607,7 @@ pub fn scenarios() -> Vec<Box<dyn Scenario>> {
         w.revive = 4;
         w.rename = 1;
         w.attr = 1;
-        w.dynf = 2;
+        w.dynf = 5;
         w.repl = if nodes > 1 { 12 } else { 0 };
         let n = if tier == Tier::Quick { 30 + k.below(50) as usize } else { 30 + k.below(150) as usize };
         (cfg, w, n, false)
